@@ -44,6 +44,9 @@ pub struct Ctl {
     pub fault_at: Vec<u64>,
     pub fault_kind: io::ErrorKind,
     pub faults_enabled: bool,
+    /// a failing read/seek/write still moves the position (and a failing write may have
+    /// written a prefix): the position after an error is unspecified
+    pub fault_side_effects: bool,
     /// label of the API call in progress (set by the harness)
     pub api_call: u64,
     /// (api_call, domain_seq, call kind) of every fault fired
@@ -65,6 +68,7 @@ impl Default for Ctl {
             fault_at: Vec::new(),
             fault_kind: io::ErrorKind::Other,
             faults_enabled: false,
+            fault_side_effects: false,
             api_call: 0,
             fired: Vec::new(),
             chop: None,
@@ -198,6 +202,10 @@ impl Read for Io {
         if let Some(ctl) = &self.ctl {
             let mut c = ctl.lock().unwrap();
             if let Some(e) = c.tick(CallKind::Read) {
+                if c.fault_side_effects {
+                    drop(c);
+                    self.pos = self.pos.saturating_add((buf.len() as u64 / 2).max(1));
+                }
                 return Err(e);
             }
             if !buf.is_empty() {
@@ -234,6 +242,20 @@ impl Write for Io {
         if let Some(ctl) = &self.ctl {
             let mut c = ctl.lock().unwrap();
             if let Some(e) = c.tick(CallKind::Write) {
+                if c.fault_side_effects && self.file.is_none() {
+                    // a prefix reached the medium before the error
+                    drop(c);
+                    let n = buf.len() / 2;
+                    let mut data = self.data.lock().unwrap();
+                    let start = self.pos as usize;
+                    if start + n <= self.cap {
+                        if data.len() < start + n {
+                            data.resize(start + n, 0);
+                        }
+                        data[start..start + n].copy_from_slice(&buf[..n]);
+                        self.pos += n as u64;
+                    }
+                }
                 return Err(e);
             }
             if !buf.is_empty() {
@@ -283,6 +305,10 @@ impl Seek for Io {
         if let Some(ctl) = &self.ctl {
             let mut c = ctl.lock().unwrap();
             if let Some(e) = c.tick(CallKind::Seek) {
+                if c.fault_side_effects {
+                    drop(c);
+                    self.pos = self.pos.wrapping_add(7);
+                }
                 return Err(e);
             }
         }
